@@ -70,8 +70,8 @@ def r1(run, ctx):
     cfg = ctx.cfg(f)
     spawn = ctx.nodes_calling(f, SPAWNERS)
     kill = ctx.nodes_calling(f, KILLERS)
-    run.count('R1', len(spawn), 1, 'spawn call in manage_processes')
-    run.count('R1', len(kill), 1, 'surplus kill call in manage_processes')
+    run.need('R1', spawn, 'spawn call in manage_processes', f, 'manage_processes never spawns: dead workers are not replaced')
+    run.need('R1', kill, 'surplus kill call in manage_processes', f, 'manage_processes never removes surplus workers: decr/reload leave too many')
     orders = {}
     for o in '<=>':
         orders[o] = reach_under(cfg, cfg.entry,
@@ -146,7 +146,7 @@ def r2(run, ctx):
             # a pop control-dependent only on a dead status test, before spawn
             if all(not cfg.reachable(s, n) for s in spawn):
                 sweeps.append(n)
-    run.count('R2', len(sweeps), 1, 'dead-entry sweep before the spawn phase')
+    run.need('R2', sweeps, 'dead-entry sweep before the spawn phase', f, 'dead entries are not dropped before the deficit is computed: a dead worker counts towards the target and is not replaced')
     # the sweep loop header dominates the spawn phase
     hdrs = [h for h in cfg.nodes if h.kind == 'iter' and
             any(h.id in {p for p, _ in cfg.pred[x.id]} or cfg.dominates([h], x) for x in sweeps)]
@@ -196,7 +196,7 @@ def r3(run, ctx):
             run.check('R3', ok, 'deficit loop bound == numprocesses - len(processes)', f,
                       h.ast.iter, 'spawn_processes starts %s workers instead of the deficit'
                       % norm_text(it.args[0]))
-    run.count('R3', found, 1, 'range(...) spawn loop in spawn_processes')
+    run.need('R3', [1] * found, 'range(...) spawn loop in spawn_processes', f)
     # each iteration spawns at most once
     # surplus selection in manage_processes
     f = ctx.fn(W + 'manage_processes')
@@ -257,7 +257,7 @@ def r4(run, ctx):
     run.rule('R4', 'numprocesses writers: clamp at 0, singleton guard; incr/decr singleton '
              'short-circuit')
     writers = _np_writers(ctx)
-    run.count('R4', len(writers), 2, 'request-path writers of Watcher.numprocesses')
+    run.count('R4', len(writers), 1, 'request-path writers of Watcher.numprocesses')
     for m, n in writers:
         cfg = ctx.cfg(m)
         val = n.ast.value
@@ -304,8 +304,8 @@ def r4(run, ctx):
     cfg = ctx.cfg(se)
     da = ctx.nodes_calling(se, [W + 'do_action'])
     so = ctx.nodes_calling(se, [W + 'set_opt'])
-    run.count('R4', len(da), 1, 'do_action call in Set.execute')
-    run.count('R4', len(so), 1, 'set_opt call in Set.execute')
+    run.need('R4', da, 'do_action call in Set.execute', se, 'set no longer applies the new options (no do_action)')
+    run.need('R4', so, 'set_opt call in Set.execute', se)
     run.check('R4', cfg.must_pass(cfg.entry, [cfg.exit], da, labels_excluded=('exc',)),
               'set always triggers do_action', se, se.node)
     dn = ctx.fn(W + 'do_action')
@@ -327,7 +327,7 @@ def r4(run, ctx):
         e = ctx.fn(key)
         cfg = ctx.cfg(e)
         calls = ctx.nodes_calling(e, [meth])
-        run.count('R4', len(calls), 1, 'call of %s' % meth)
+        run.need('R4', calls, 'call of %s' % meth, e)
         r = reach_under(cfg, cfg.entry, attr_truth('singleton', True))
         for n in calls:
             run.check('R4', n.id not in r, '%s is not reached for a singleton watcher'
@@ -351,8 +351,8 @@ def r5(run, ctx):
     cfg = ctx.cfg(f)
     st = [s.node for s in ctx.sites_calling(f, [W + '_stop']) if astq.call_is_yielded(s.node, s.call)]
     sa_ = [s.node for s in ctx.sites_calling(f, [W + '_start']) if astq.call_is_yielded(s.node, s.call)]
-    run.count('R5', len(st), 1, 'yielded _stop in _restart')
-    run.count('R5', len(sa_), 1, 'yielded _start in _restart')
+    run.need('R5', st, 'awaited _stop in _restart', f, 'restart no longer stops the old workers first')
+    run.need('R5', sa_, 'awaited _start in _restart', f, 'restart no longer starts the watcher again')
     for n in sa_:
         run.check('R5', cfg.dominates(st, n), '_restart awaits _stop before _start', f, n.ast)
     run.check('R5', cfg.must_pass(cfg.entry, [cfg.exit], sa_), '_restart always starts again',
@@ -371,7 +371,7 @@ def r5(run, ctx):
             body = cfg.branch_nodes(h, 'true')
             if any(n.id in body for n in ctx.nodes_calling(f, [W + 'spawn_process'])):
                 loops.append(h)
-    run.count('R5', len(loops), 1, 'range(numprocesses) spawn loop in _reload')
+    run.need('R5', loops, 'range(numprocesses) spawn loop in _reload', f, 'a graceful reload does not spawn numprocesses replacements: some old workers survive the reload')
     r = reach_under(cfg, cfg.entry, assume, avoid=loops)
     run.check('R5', cfg.exit.id not in r, 'graceful reload spawns numprocesses replacements',
               f, f.node, 'a graceful non-sequential reload can finish without spawning '
@@ -389,7 +389,7 @@ def r5(run, ctx):
     S = ctx.nodes_calling(f, [W + 'spawn_process'])
     seq_loops = [h for h in cfg.nodes if h.kind == 'iter' and
                  any(k.id in cfg.branch_nodes(h, 'true') for k in K)]
-    run.count('R5', len(seq_loops), 1, 'sequential reload loop')
+    run.need('R5', seq_loops, 'sequential reload loop (awaited kill_process per worker)', f, 'sequential reload no longer replaces the workers one by one')
     for h in seq_loops:
         body = cfg.branch_nodes(h, 'true')
         start = [cfg.nodes[i] for i, lab in cfg.succ[h.id] if lab == 'true']
@@ -420,7 +420,7 @@ def r6(run, ctx):
             for c in s.node.calls():
                 if astq.call_last(c) in ('AsyncPeriodicCallback', 'PeriodicCallback'):
                     reg.append((s.node, c))
-    run.count('R6', len(reg), 1, 'periodic registration of Arbiter.manage_watchers')
+    run.need('R6', reg, 'periodic registration of Arbiter.manage_watchers', f, 'the periodic check is not scheduled: dead workers are never replaced')
     for n, c in reg:
         per = c.args[1] if len(c.args) > 1 else astq.kwarg(c, 'callback_time')
         run.check('R6', per is not None and 'check_delay' in norm_text(per),
@@ -435,8 +435,8 @@ def r6(run, ctx):
     cfg = ctx.cfg(mw)
     reap = ctx.nodes_calling(mw, [A + 'reap_processes'])
     mp = ctx.nodes_calling(mw, [W + 'manage_processes'])
-    run.count('R6', len(reap), 1, 'reap_processes call in manage_watchers')
-    run.count('R6', len(mp), 1, 'manage_processes call in manage_watchers')
+    run.need('R6', reap, 'reap_processes call in manage_watchers', mw, 'the periodic check no longer reaps dead children before managing')
+    run.need('R6', mp, 'manage_processes call in manage_watchers', mw, 'the periodic check no longer manages the watchers')
     for n in mp:
         run.check('R6', cfg.dominates(reap, n), 'children are reaped before the per-watcher '
                   'check', mw, n.ast)
